@@ -250,17 +250,18 @@ func (rd *ReorgDetector) detectReorgInTrackedList(ctx context.Context) error {
 
 // loadTrackedHeaders loads tracked headers from the DB and stores them in memory
 func (rd *ReorgDetector) loadTrackedHeaders() (err error) {
-	rd.trackedBlocksLock.Lock()
-	defer rd.trackedBlocksLock.Unlock()
-
-	// Load tracked blocks for all subscribers from the DB
+	// Load tracked blocks for all subscribers from the DB (no lock is needed to read the DB)
 	trackedBlocks, err := rd.getTrackedBlocks()
 	if err != nil {
 		return fmt.Errorf("failed to get tracked blocks: %w", err)
 	}
 
+	// Same lock order as Subscribe (subscriptions, then tracked blocks): Start runs in its own
+	// goroutine while the syncers subscribe, and the opposite order made the two deadlock
 	rd.subscriptionsLock.Lock()
 	defer rd.subscriptionsLock.Unlock()
+	rd.trackedBlocksLock.Lock()
+	defer rd.trackedBlocksLock.Unlock()
 	// Go over tracked blocks and create subscription for each tracker. A syncer may have subscribed
 	// before Start is executed (Start runs in its own goroutine): its subscription and its list must
 	// be kept, otherwise it would never be notified or even be reported as not subscribed.
